@@ -60,6 +60,26 @@ CHECKS = {
             'oracle for pop/default, KeyError and the byte-identical TypeError case.',
             'Trusted: json.dumps/loads round-trip with an own NumPy converter as reference; popitem may return any present key.',
             'DESIGN.md section 4 C13'),
+    'C01': ('enum', 'exploration', E2,
+            'Complete sub-products of (source type x byte order x layout x shape x input form x dtype argument x chunklen x fill) '
+            'against np.asarray/astype/concatenate/full, compared in dtype.str, shape and bytes through the returned handle, a '
+            'fresh handle and the independent decoder; rejected element types must raise TypeError with nothing created.',
+            'Trusted: NumPy as reference; casts NumPy leaves undefined are kept out of the payload; quick tier fixes some '
+            'dimensions at 2-4 representatives (sub-products listed in the evidence), thorough takes all 24 source types.',
+            'DESIGN.md section 4 C01'),
+    'C12': ('enum', 'exploration', E2,
+            'Every index tuple of length 0..rank+1 over a per-axis atom set (all ints in [-n-1,n], slices, Ellipsis, None, int '
+            'lists/arrays, bool masks, non-index objects) for arrays of rank 1-4 incl. empty ones: reads and writes compared '
+            'with ndarray semantics (values, dtype, shape, exception class), detachedness, durability, inside/outside '
+            'open_array(), and no descriptor/map left after any call.',
+            'Trusted: NumPy indexing as reference; extents <= 3; reduced atom set for rank >= 3 and for writes.',
+            'DESIGN.md section 4 C12'),
+    'C14': ('enum', 'exploration', E2,
+            'The complete grid of (n, chunklen, stepsize, startindex, endindex, include_remainder) up to N=8 (quick) / 12 '
+            '(thorough) including the invalid ring around it, against a frame specification written from the property text; '
+            'iterchunks as detached copies; fit_frames incl. float arguments and a fixed list of large values.',
+            'Trusted: frames_spec/fit_spec in dv/checks/c14.py as the reading of the property text.',
+            'DESIGN.md section 4 C14'),
 }
 
 NOT_YET = {
